@@ -155,7 +155,7 @@ Proof.
 Qed.
 
 (* erase takes effect: the predecessor p of c gets next = next of c *)
-Lemma nstep_E_s1 g it c nx0 p nxt : GS g (E_s1 it c nx0 (Some p) nxt) -> isnode g p = true ->
+Lemma nstep_E_s1 g it c nx0 p nxt z : GS g (E_s1 it c nx0 (Some p) nxt z) -> isnode g p = true ->
   nstep g (commit (setn g p (n_next (gnode g p) nxt)) (MErase c)).
 Proof.
   intros G H. set (g1 := setn g p _).
@@ -209,8 +209,7 @@ Proof.
   all: try (eapply nstep_E_s1; [exact G0|eapply wtarget_isnode; [exact I|exact Hl|reflexivity]]).
   all: try (apply nstep_commit_erase; pose proof (gs_hold _ _ G0) as Hh; cbn [hold_ok] in Hh; tauto).
   all: try (apply nstep_commit_erase0; assumption).
-  all: try (assert (pubn g c0) as Pc0 by (apply T1; apply in_or_app; right; left; reflexivity);
-            apply nstep_set_del; [apply Pc0|]; destruct Pc0 as [_ [B|B]]; [exact B|unfold dl in B; congruence]).
+  all: try (apply nstep_set_del; [eapply wtarget_isnode; [exact I|exact Hl|reflexivity]|pose proof (gs_hold _ _ G0) as Hh; cbn [hold_ok] in Hh; tauto]).
   all: assert (isnode g n = true) as Hn by (eapply wtarget_isnode; [exact I|exact Hl|reflexivity]).
   all: pose proof (gs_hold _ _ G0) as Hh; cbn [hold_ok] in Hh.
   - destruct Hh as (_ & Hd & _ & Hnl & _).
@@ -402,7 +401,7 @@ Definition tex_progs : list (list op) :=
   [[LockWrite; PushBack 10; PushBack 20; PushFront 5; Begin 0; Next 0; Erase 0; Release];
    [LockRead; Begin 0; Next 0; Deref 0; Next 0; Deref 0; Release]].
 Definition tex_sched1 : list (nat * nat) := repeat (0%nat, 0%nat) 36 ++ repeat (1%nat, 0%nat) 10.
-Definition tex_sched2 : list (nat * nat) := repeat (0%nat, 0%nat) 7.
+Definition tex_sched2 : list (nat * nat) := repeat (0%nat, 0%nat) 8.
 Definition tex_s1 := run glob loc tstep (init false tex_progs) tex_sched1.
 Definition tex_s2 := run glob loc tstep tex_s1 tex_sched2.
 (* the list is [3; 1; 2] (node numbers) when the traversal starts; it has moved from 3 to 1 when the
